@@ -83,7 +83,7 @@ def record(run, tier, rng):
 
 def exact_float(run, tier, nprng):
     """Fractional coefficients: bitwise equality with the documented float64 recurrence, cast back."""
-    for dt in DT.values():
+    for dt in list(DT.values()) + [np.longdouble]:
         # (lengths around 2^16 and 2^17 too: the recurrence has no block structure)
         for n in (0, 1, 2, 3, 5, 6, 1000, 65537, 65538, 131075, 200003):
             for coeff in (0.97, 0.5, -0.3, 1.0 / 3.0) if n <= 1000 else (0.97,):
@@ -114,7 +114,9 @@ def exact_float(run, tier, nprng):
                         run.violation({"kind": "preemph_raised", "dtype": str(np.dtype(dt)), "n": n, "coeff": coeff, "in_place": ip, "error": repr(e)})
                         continue
                     run.evaluations += 1
-                    if got.dtype.newbyteorder("=") != np.dtype(dt) or got.shape != want.shape or got.astype(dt).tobytes() != want.tobytes():
+                    if got.dtype.newbyteorder("=") != np.dtype(dt) or got.shape != want.shape or (
+                            # (the padding bytes of an 80-bit long double are not part of its value)
+                            not np.array_equal(got, want) if dt is np.longdouble else got.astype(dt).tobytes() != want.tobytes()):
                         bad = int(np.sum(got != want)) if got.shape == want.shape else -1
                         run.violation({"kind": "preemph_not_float64_recurrence_cast_back", "dtype": str(np.dtype(dt)), "n": n, "coeff": coeff,
                                        "in_place": ip, "layout": layout, "result_dtype": str(got.dtype), "n_samples_off": bad})
@@ -130,8 +132,8 @@ def dither(run, tier):
                 d = pre.Dither(coeff)
                 outs = []
                 for x in (np.zeros(n, dtype=dt), base):
-                    for ip in (False, True):
-                        arg = common.relayout(x, common.LAYOUTS[(n + ip + int(coeff * 2)) % len(common.LAYOUTS)])
+                    for (ip, lay) in [(i, l) for i in (False, True) for l in (common.LAYOUTS if n >= 5 else common.LAYOUTS[:1])]:
+                        arg = common.relayout(x, lay)
                         if not ip:
                             arg.flags.writeable = False
                         np.random.seed(99)
@@ -142,7 +144,7 @@ def dither(run, tier):
                             continue
                         if not ip and not np.array_equal(arg, x):
                             run.violation({"kind": "dither_modified_input", "dtype": str(np.dtype(dt)), "n": n, "coeff": coeff})
-                        outs.append((x, ip, got))
+                        outs.append((x, (ip, lay), got))
                 np.random.seed(99)
                 g = np.random.normal(0, 1, (n,))
                 for (x, ip, got) in outs:
